@@ -139,7 +139,7 @@ static PALETTE: OnceLock<Vec<PaletteEntry>> = OnceLock::new();
 fn palette_entry() -> impl Strategy<Value = PaletteEntry> {
     let group = prop_oneof![
         1 => Just(GroupSpec::Unrestricted),
-        14 => (list_spec(3, 1, 6), list_spec(1, 4, 4)).prop_map(|(wl, bl)| GroupSpec::Lists { wl, bl }),
+        24 => (list_spec(3, 1, 7), list_spec(1, 3, 6)).prop_map(|(wl, bl)| GroupSpec::Lists { wl, bl }),
     ];
     (group, prop::bool::weighted(0.3), prop::bool::weighted(0.4))
 }
@@ -331,11 +331,15 @@ fn marker_re() -> &'static regex::Regex {
 /// fixture markers in a response body -> (marker, canonical namespace id).  `names`: also count
 /// item names (`nm-`), which a listing must not reveal; a read request carries the name itself,
 /// so only server-side values (`sx-`) count there.
-fn markers(body: &[u8], names: bool) -> BTreeMap<String, String> {
+fn markers(body: &[u8], names: bool, request_text: &str) -> BTreeMap<String, String> {
     let text = String::from_utf8_lossy(body);
     let mut out = BTreeMap::new();
     for c in marker_re().captures_iter(&text) {
         if &c[1] == "nm" && !names {
+            continue;
+        }
+        // a name the request itself carries may be echoed by a refusal: it is not something shown
+        if request_text.contains(&c[0]) {
             continue;
         }
         if let Some(ns) = ns_of_tag(&c[2]) {
@@ -384,8 +388,20 @@ struct Judged {
 ///     that the administrator gets is shown, with the same HTTP status.
 fn judge_read(ep: &Ep, group: &GroupSpec, named: &Option<String>, req: &Req, user: &Resp, admin: &Resp) -> Judged {
     let names = ep.op == Op::List;
-    let mut um = markers(&user.body, names);
-    let mut am = markers(&admin.body, names);
+    let request_text = req.describe();
+    let mut um = markers(&user.body, names, &request_text);
+    let mut am = markers(&admin.body, names, &request_text);
+    if ep.id.contains("subscribers") {
+        // what a subscriber listing reveals is who (address) listens to which service of which namespace
+        for (resp, set) in [(user, &mut um), (admin, &mut am)] {
+            let v = resp.json();
+            let list = v["subscribers"].as_array().or(v["data"]["list"].as_array()).cloned().unwrap_or_default();
+            for it in list {
+                let ns = canon_ns(it["namespaceId"].as_str().unwrap_or(""));
+                set.insert(format!("subscriber of {}@{:?} at {}", it["serviceName"].as_str().unwrap_or(""), ns, it["ip"].as_str().unwrap_or("")), ns);
+            }
+        }
+    }
     let mut stable_only: BTreeSet<String> = BTreeSet::new();
     if ep.kind == Kind::Namespace && ep.op == Op::List {
         let (u_all, u_rec) = listed_namespaces(user);
@@ -649,7 +665,7 @@ fn run_case_on(case: &Case, s: &mut Server) -> Result<CaseReport, String> {
         labels.push("nontrivial".into());
     }
 
-    let unknown: Vec<&Violation> = judged.violations.iter().filter(|v| known_root(ep, v.clause).is_none()).collect();
+    let unknown: Vec<&Violation> = judged.violations.iter().filter(|v| known_root(ep, v.clause, named.is_some()).is_none()).collect();
     let verdict = if judged.violations.is_empty() {
         Verdict::Pass
     } else if let Some(v) = unknown.first() {
@@ -657,7 +673,7 @@ fn run_case_on(case: &Case, s: &mut Server) -> Result<CaseReport, String> {
         Verdict::Violation(format!("[{:?}] {} {}: {}", v.clause, ep.id, ep.sig(), v.msg))
     } else {
         let v = &judged.violations[0];
-        let root = known_root(ep, v.clause).unwrap_or("");
+        let root = known_root(ep, v.clause, named.is_some()).unwrap_or("");
         labels.push(format!("known:{}", root));
         KNOWN_EXAMPLES.lock().unwrap().entry(format!("C18/{}", ep.sig())).or_insert_with(|| (case.clone(), root.to_string(), v.msg.clone()));
         Verdict::Known(format!("C18/{}", ep.sig()))
@@ -675,13 +691,20 @@ fn sweep_cases() -> Vec<Case> {
     // every namespace of the universe is permitted by exactly one of the two groups
     let g1 = GroupSpec::Lists { wl: ListSpec::Ids(vec![0, 2, 4, 5]), bl: ListSpec::Ids(vec![]) };
     let g2 = GroupSpec::Lists { wl: ListSpec::All, bl: ListSpec::Ids(vec![0, 2, 4, 5]) };
+    // blacklist wins over whitelist (ns-b is in both; only ns-a is permitted); nothing permitted at all
+    let g3 = GroupSpec::Lists { wl: ListSpec::Ids(vec![1, 2]), bl: ListSpec::Ids(vec![2]) };
+    let g4 = GroupSpec::Lists { wl: ListSpec::All, bl: ListSpec::All };
     let mut out = vec![];
     for ep in CATALOGUE {
         let mut variants: Vec<u8> = vec![0, 1];
+        let _ = &mut variants;
         if ep.id == "v2.mcpserver_import.create" {
             variants.extend([1u8 << 1, 2 << 1, 3 << 1, 4 << 1]);
         }
-        for (gi, g) in [&g1, &g2].into_iter().enumerate() {
+        for (gi, g) in [&g1, &g2, &g3, &g4].into_iter().enumerate() {
+            if gi >= 2 && variants.len() > 2 {
+                variants.truncate(2);
+            }
             for target in 0..NS.len() as u8 {
                 let spellings: &[Spelling] = if target == 0 { &[Spelling::Empty, Spelling::Omitted, Spelling::Public] } else { &[Spelling::Empty] };
                 for sp in spellings {
